@@ -12,8 +12,8 @@ from ..oracle.schema import schema
 from ..run import hyp_search, mix
 from .c03 import simple_class_name
 
-RULE = ('(emission) for every simple type, through three vehicles (the type class itself, one element whose content '
-        'has that type, one attribute of that type): a fixed panel of Python values (ints incl. bool and huge, floats '
+RULE = ('(emission) for every simple type, through four vehicles (the type class itself, one element whose content '
+        'has that type, one attribute of that type, and the same attribute ASSIGNED while it holds an equal valid value of another Python type): a fixed panel of Python values (ints incl. bool and huge, floats '
         'in all magnitudes incl. 1e-05 / 1e22 / -0.0 / nan / inf, Decimal, Fraction, None, strings with interior / '
         'exterior whitespace, containers) plus oracle-valid and near-miss texts plus Hypothesis-drawn numbers and '
         'strings; whenever the library ACCEPTS a value the text it emits (to_string -> xml.etree) must be in the '
@@ -97,7 +97,27 @@ def offer(t, vehicle, v):
     sv = driver.stub_value(el)
     tk = s.element_type[el]
     args = (sv,) if (sv is not None and s.content_kind(tk) in ('simple', 'text')) else ()
-    r = call(cls_for(el), *args, **kw)
+    if vehicle == 'attribute-overwrite':
+        # the value is ASSIGNED to an attribute that already holds a valid value comparing equal to it (1 for
+        # True / 1.0, ...): what is accepted must not depend on what is stored
+        if isinstance(v, bool) or not isinstance(v, (int, float)) or v != v or v in (float('inf'), float('-inf')):
+            cands = [int(v)] if isinstance(v, bool) else []
+        else:
+            cands = [int(v), float(v)] if v == int(v) else []
+        cands = [c for c in cands if type(c) is not type(v)]
+        r0 = None
+        for c0 in cands:
+            r0 = call(cls_for(el), *args, **dict(kw, **{py_name(q.split(':')[-1]): c0}))
+            if r0.ok:
+                break
+        if r0 is None or not r0.ok:
+            return None, None, None
+        r = call(setattr, r0.value, py_name(q.split(':')[-1]), v)
+        if not r.ok:
+            return False, None, r
+        r.value = r0.value
+    else:
+        r = call(cls_for(el), *args, **kw)
     if not r.ok:
         return False, None, r
     if v is None:
@@ -267,12 +287,14 @@ def run_shard(ctx, shard, acc):
             if t == 'xs:Name':
                 continue
             vs = lexical.valid_texts(t, limit=0)
-            for veh in ('class', 'element', 'attribute'):
+            for veh in ('class', 'element', 'attribute', 'attribute-overwrite'):
                 # emission: panel + bounds + near misses + valid samples offered as str
                 vals = list(PANEL) + bound_numbers(t) + lexical.invalid_texts(t) + vs
                 for v in vals:
                     f, a = check_emission(t, veh, v)
                     if a is None:
+                        if veh == 'attribute-overwrite':
+                            continue          # no equal value of another type to overwrite: next value
                         break
                     acc.case({'side': 'emission', 'vehicle': veh, 'type': t, 'value': key(v)},
                              key(v) not in CANONICAL, 0)
@@ -281,7 +303,7 @@ def run_shard(ctx, shard, acc):
                         acc.fail(f, raise_=False)
                 # acceptance: oracle-valid samples in the documented representation
                 for txt in vs:
-                    if veh != 'class' and offer(t, veh, 0)[0] is None:
+                    if veh == 'attribute-overwrite' or (veh != 'class' and offer(t, veh, 0)[0] is None):
                         break
                     f = check_acceptance(t, veh, txt)
                     acc.case({'side': 'acceptance', 'vehicle': veh, 'type': t, 'text': txt}, False, 0)
